@@ -1,4 +1,6 @@
 import Orca.Lemmas.Ops
+import Orca.Gen.ApiOutline
+import Orca.Model.ApiOutlineSpec
 import Orca.Lemmas.Redirect
 /-!
 # C11 — converting a local function to an import redirects all its uses
@@ -76,3 +78,10 @@ theorem c11_other_functions_keep_identity (s0 : St) (h0 : StInv s0) (id uid : Na
   · exact hs op ho
 
 end Orca.Edit
+
+/-- **The tie to the source (regenerated on every run).** The control-and-call skeletons of the functions this property rests on:
+    `convert_local_fn_to_import_with_tag` is what M2's conversion was transcribed from. A step moved, an early exit, guard, call or assignment added or removed breaks this obligation; renaming, comments and
+    formatting do not. -/
+theorem c11_conversion_code_reviewed :
+    Orca.Gen.ApiOutline.convert_local_fn_to_import_with_tag = Orca.ApiOutlineSpec.convert_local_fn_to_import_with_tag :=
+  rfl
